@@ -1721,6 +1721,8 @@ def main():
     rs2coq_regex.main(os.path.dirname(dst))
     import rs2coq_enf2           # part 15: register_g_functions, new_raw / new, enforce wrappers, on / off / emit, emitter.rs -> Gen/Enforcer2Gen.v
     rs2coq_enf2.main(os.path.dirname(dst))
+    import rs2coq_ini            # part 12: config.rs + the loading half of default_model.rs + to_text -> Gen/IniGen.v
+    rs2coq_ini.main(os.path.dirname(dst))
     import rs2coq_rm             # part 11: DefaultRoleManager + bounded BFS -> Gen/RoleManagerGen.v
     rs2coq_rm.main(os.path.dirname(dst))
 
